@@ -23,8 +23,11 @@ type Cell struct {
 type pathElem struct {
 	isIndex bool
 	field   int
-	index   string     // index term (index sort)
+	index   string     // index term (index sort), absolute
 	cont    types.Type // type of the container at this step (struct or array type)
+	efn     string     // optional: element function; then the read is (efn base off rel)
+	off     string
+	rel     string
 }
 
 type Addr struct {
@@ -287,7 +290,7 @@ func (g *Gen) strConst(s string) string {
 }
 
 func (g *Gen) strAt(s, i string) string {
-	return "(select (str_arr " + s + ") " + g.idxAdd("(str_off "+s+")", i) + ")"
+	return g.elemAt("(str_arr "+s+")", "(str_off "+s+")", i, g.S.byteSort())
 }
 
 // strEqConst: Go equality between symbolic string s and literal lit.
@@ -333,13 +336,37 @@ func (a *Addr) extend(pe pathElem) *Addr {
 // pathGet applies path to a value term of type t.
 func (g *Gen) pathGet(v string, path []pathElem) string {
 	for _, pe := range path {
-		if pe.isIndex {
+		if pe.isIndex && pe.efn != "" {
+			v = "(" + pe.efn + " " + v + " " + pe.off + " " + pe.rel + ")"
+		} else if pe.isIndex {
 			v = "(select " + v + " " + pe.index + ")"
 		} else {
 			v = g.S.structField(pe.cont, v, pe.field)
 		}
 	}
 	return v
+}
+
+// elemFn returns the name of the element-access function for element sort es, or "" when the
+// function under verification has no quantified clauses (plain select is used then).
+// (elem_S arr off k) == (select arr (+ off k)); it exists to give quantifiers a stable trigger.
+func (g *Gen) elemFn(es string) string {
+	if !g.useElemFn {
+		return ""
+	}
+	name := "elem_" + sanitize(es)
+	if g.elemFns == nil {
+		g.elemFns = map[string]string{}
+	}
+	g.elemFns[name] = es
+	return name
+}
+
+func (g *Gen) elemAt(arr, off, k, es string) string {
+	if fn := g.elemFn(es); fn != "" {
+		return "(" + fn + " " + arr + " " + off + " " + k + ")"
+	}
+	return "(select " + arr + " " + g.idxAdd(off, k) + ")"
 }
 
 // pathSet returns base with the element at path replaced by nv.
